@@ -7,7 +7,14 @@ export GOTOOLCHAIN=local
 GO=/opt/veriftools/go1.26.8/bin/go
 mkdir -p .build
 maporder/gen.sh >/dev/null || { echo "HARNESS-ERROR: overlay generation failed" >&2; exit 2; }
-if ! $GO build -overlay .build/maporder/overlay.json -tags verif -o .build/C30 ./checks/c30 2>.build/C30.buildlog; then
+OV=.build/maporder/overlay.json
+if [ -n "${VERIF_OVERLAY:-}" ]; then
+  # merge the mutation overlay with the map-order overlay
+  python3 -c "import json,sys;a=json.load(open('.build/maporder/overlay.json'));b=json.load(open(sys.argv[1]));a['Replace'].update(b['Replace']);json.dump(a,open('.build/maporder/overlay.merged.json','w'))" "$VERIF_OVERLAY" || exit 2
+  OV=.build/maporder/overlay.merged.json
+  export GOFLAGS=-mod=mod
+fi
+if ! $GO build -overlay $OV -tags verif -o .build/C30 ./checks/c30 2>.build/C30.buildlog; then
   cat .build/C30.buildlog >&2
   echo "HARNESS-ERROR: build of C30 (go1.26.8 + map-order overlay) failed" >&2
   exit 2
